@@ -37,6 +37,9 @@ func TextOf(c int, base string) string {
 	case TextEmpty:
 		return ""
 	}
+	if s, ok := textExt(c, base); ok {
+		return s
+	}
 	return base
 }
 
@@ -58,7 +61,15 @@ type B struct {
 	ForceID    *int64
 	ForceWhere uint
 
-	pos int
+	// NumPos, when non-zero, selects the value position (integer, decimal,
+	// timestamp, note date or boolean; 1-based, in request order, NumAll for
+	// every position) that carries boundary class NumClass of its type
+	// instead of the generated value (see boundary.go).
+	NumPos   int
+	NumClass int
+
+	pos      int
+	numTypes []int
 }
 
 // Places that carry an id.
@@ -103,6 +114,9 @@ func (b *B) next() int { b.Seed++; return b.Seed }
 
 // I returns a distinct positive integer and its decimal text.
 func (b *B) I(base int64) (string, int64) {
+	if s, v, ok := b.numInt(); ok {
+		return s, v
+	}
 	v := base + int64(b.Seed)
 	return strconv.FormatInt(v, 10), v
 }
@@ -115,6 +129,9 @@ var fracs = []string{"5", "25", "125", "75", "0625", "375", "1234567", "9999999"
 // from an integer part and a fraction literal; the value is the correctly
 // rounded float64 of that decimal (strconv, not the code under test).
 func (b *B) F(whole int, k int) (string, float64) {
+	if s, v, ok := b.numFloat(); ok {
+		return s, v
+	}
 	i := (b.Seed + k) % len(fracs)
 	w := whole + b.Seed%7
 	neg := (b.Seed+k)%3 == 1
@@ -132,6 +149,9 @@ func (b *B) F(whole int, k int) (string, float64) {
 // Time returns an RFC 3339 timestamp text and its instant; k separates the
 // different time fields of one element.
 func (b *B) Time(k int) (string, time.Time) {
+	if s, v, ok := b.numTime(); ok {
+		return s, v
+	}
 	y, mo, d := 2009+k, 1+(b.Seed+k)%12, 1+(b.Seed*3+k)%28
 	h, mi, s := (3+k)%24, (4+b.Seed)%60, (5+k*7)%60
 	ns := 0
@@ -153,6 +173,9 @@ func (b *B) Time(k int) (string, time.Time) {
 
 // NoteDate returns a note date text ("2006-01-02 15:04:05 UTC") and its instant.
 func (b *B) NoteDate(k int) (string, osm.Date) {
+	if s, v, ok := b.numNoteDate(); ok {
+		return s, v
+	}
 	y, mo, d := 2011+k, 1+(b.Seed+k)%12, 1+(b.Seed*5+k)%28
 	h, mi, s := (7+k)%24, (8+b.Seed)%60, (9+k*11)%60
 	t := time.Date(y, time.Month(mo), d, h, mi, s, 0, time.UTC)
@@ -235,13 +258,14 @@ func (b *B) metaAttrs(mask uint, from int) ([]Attr, meta) {
 	}
 	if bit(mask, from+1) {
 		var s string
-		s, m.uid = b.I(4200)
+		s, m.uid = b.ID(4200, IDAtUID)
 		at = append(at, Attr{"uid", s})
 	}
 	if bit(mask, from+2) {
 		// visible="true" is the informative value: absent decodes as false
-		m.visible = true
-		at = append(at, Attr{"visible", "true"})
+		var s string
+		s, m.visible = b.Bool()
+		at = append(at, Attr{"visible", s})
 	}
 	if bit(mask, from+3) {
 		var s string
@@ -393,8 +417,9 @@ func (b *B) update(mask uint) (*Elem, osm.Update) {
 		v.Lon = f
 	}
 	if bit(mask, 6) {
-		at = append(at, Attr{"reverse", "true"})
-		v.Reverse = true
+		s, r := b.Bool()
+		at = append(at, Attr{"reverse", s})
+		v.Reverse = r
 	}
 	return E("update", at), v
 }
@@ -496,8 +521,11 @@ func (b *B) Way(c WayCfg) (*Elem, *osm.Way) {
 type MemberCfg struct {
 	Attrs  uint   `json:"attrs"`  // bits: type ref role version changeset lat lon orientation
 	Type   int    `json:"type"`   // 0 node, 1 way, 2 relation
-	Orient int    `json:"orient"` // used when the orientation bit is set: 0 -> "1" (CCW), 1 -> "-1" (CW)
+	Orient int    `json:"orient"` // used when the orientation bit is set: 0 -> "1" (CCW), 1 -> "-1" (CW), 2 -> "0"
 	Nds    []uint `json:"nds"`
+	// TypeText, when non-empty, is written as the type attribute instead of
+	// the name selected by Type (other object types, for example "changeset").
+	TypeText string `json:"type_text,omitempty"`
 }
 
 // NumMemberAttrs is the number of optional <member> attributes.
@@ -511,8 +539,13 @@ func (b *B) member(c MemberCfg) (*Elem, osm.Member) {
 	var v osm.Member
 	var at []Attr
 	if bit(c.Attrs, 0) {
-		at = append(at, Attr{"type", memberTypeText[c.Type%3]})
-		v.Type = memberTypes[c.Type%3]
+		if c.TypeText != "" {
+			at = append(at, Attr{"type", c.TypeText})
+			v.Type = osm.Type(c.TypeText)
+		} else {
+			at = append(at, Attr{"type", memberTypeText[c.Type%3]})
+			v.Type = memberTypes[c.Type%3]
+		}
 	}
 	if bit(c.Attrs, 1) {
 		s, i := b.ID(880000, IDAtMemberRef)
@@ -544,7 +577,11 @@ func (b *B) member(c MemberCfg) (*Elem, osm.Member) {
 		v.Lon = f
 	}
 	if bit(c.Attrs, 7) {
-		if c.Orient%2 == 0 {
+		if c.Orient == 2 {
+			// present but zero
+			at = append(at, Attr{"orientation", "0"})
+			v.Orientation = 0
+		} else if c.Orient%2 == 0 {
 			at = append(at, Attr{"orientation", "1"})
 			v.Orientation = orb.CCW
 		} else {
@@ -633,7 +670,7 @@ func (b *B) Changeset(c ChangesetCfg) (*Elem, *osm.Changeset) {
 		at = append(at, Attr{"user", v.User})
 	}
 	if bit(c.Attrs, 2) {
-		s, i := b.I(9100)
+		s, i := b.ID(9100, IDAtUID)
 		at = append(at, Attr{"uid", s})
 		v.UserID = osm.UserID(i)
 	}
@@ -648,8 +685,9 @@ func (b *B) Changeset(c ChangesetCfg) (*Elem, *osm.Changeset) {
 		v.ClosedAt = t
 	}
 	if bit(c.Attrs, 5) {
-		at = append(at, Attr{"open", "true"})
-		v.Open = true
+		s, o := b.Bool()
+		at = append(at, Attr{"open", s})
+		v.Open = o
 	}
 	if bit(c.Attrs, 6) {
 		s, i := b.I(17)
@@ -696,7 +734,7 @@ func (b *B) Changeset(c ChangesetCfg) (*Elem, *osm.Changeset) {
 				cat = append(cat, Attr{"user", cv.User})
 			}
 			if bit(cm, 1) {
-				s, i := b.I(300)
+				s, i := b.ID(300, IDAtUID)
 				cat = append(cat, Attr{"uid", s})
 				cv.UserID = osm.UserID(i)
 			}
@@ -753,7 +791,7 @@ func (b *B) Note(c NoteCfg) (*Elem, *osm.Note) {
 		v.Lon = f
 	}
 	if bit(c.Parts, 2) {
-		s, i := b.I(1600000)
+		s, i := b.ID(1600000, IDAtNoteID)
 		kids = append(kids, T("id", s))
 		v.ID = osm.NoteID(i)
 	}
@@ -801,7 +839,7 @@ func (b *B) Note(c NoteCfg) (*Elem, *osm.Note) {
 				cv.Date = d
 			}
 			if bit(cm, 1) {
-				s, i := b.I(555)
+				s, i := b.ID(555, IDAtUID)
 				ck = append(ck, T("uid", s))
 				cv.UserID = osm.UserID(i)
 			}
@@ -871,7 +909,7 @@ func (b *B) User(c UserCfg) (*Elem, *osm.User) {
 	var at []Attr
 	var kids []*Elem
 	if bit(c.Parts, 0) {
-		s, i := b.I(230000)
+		s, i := b.ID(230000, IDAtUserID)
 		at = append(at, Attr{"id", s})
 		v.ID = osm.UserID(i)
 	}
